@@ -1814,6 +1814,22 @@ class _FoldConst(ast.NodeTransformer):
 
     def visit_BoolOp(self, node):
         self.generic_visit(node)
+
+        def booly(e):
+            # certainly True / False (so that `e and True` IS e, not merely as truthy as e)
+            if isinstance(e, ast.Constant):
+                return isinstance(e.value, bool)
+            if isinstance(e, ast.Compare):
+                return True
+            if isinstance(e, ast.UnaryOp) and isinstance(e.op, ast.Not):
+                return True
+            if isinstance(e, ast.Call) and isinstance(e.func, ast.Name) and e.func.id in ("isinstance", "issubclass", "bool", "any", "all", "callable", "hasattr"):
+                return True
+            if isinstance(e, ast.BoolOp):
+                return all(booly(v) for v in e.values)
+            return False
+        if not all(booly(v) for v in node.values):
+            return node
         vals = []
         for v in node.values:
             if isinstance(v, ast.Constant) and isinstance(v.value, bool):
@@ -3546,9 +3562,13 @@ class Canon:
             if not isinstance(c, Class) or not any(u(b).split(".")[-1] in ("Enum", "IntEnum", "StrEnum", "Flag") for b in c.node.bases):
                 return None
             vals = {k: v.value for k, v in c.class_assigns.items() if isinstance(v, ast.Constant)}
-            if e.attr not in vals or len(set(map(repr, vals.values()))) != len(vals):
+            autos = {k for k, v in c.class_assigns.items() if isinstance(v, ast.Call) and u(v.func).split(".")[-1] == "auto" and not v.args}
+            if autos and not vals and e.attr in autos:
+                return c.qualname, e.attr          # (auto() numbers every member differently)
+            if e.attr not in vals or len(set(map(repr, vals.values()))) != len(vals) or autos:
                 return None
             return c.qualname, e.attr
+        self._enum_member_key = member
 
         class F(ast.NodeTransformer):
             def visit_Compare(self, node):
@@ -3784,17 +3804,44 @@ class Canon:
                             return explicit_super(m_, k_), True, prep
                         break
                 return None
-            if isinstance(f, ast.Attribute) and isinstance(f.value, ast.Name) and f.value.id in module.classes and f.value.id.startswith("_") \
-                    and f"class:{f.value.id}" not in known and f.value.id not in local_types and f.attr not in keep:
+            def private_class(nm):
+                """the private class (of this module, or imported from a sibling one) the name stands for"""
+                if not nm.startswith("_") or f"class:{nm}" in known or nm in local_types:
+                    return None
+                if nm in module.classes:
+                    return module.classes[nm]
+                try:
+                    r_ = module.resolve(ast.Name(id=nm, ctx=ast.Load()))
+                except Exception:
+                    return None
+                from .model import Class as _Class
+                return r_ if isinstance(r_, _Class) and r_.name == nm else None
+            if isinstance(f, ast.Attribute) and isinstance(f.value, ast.Name) and f.attr not in keep and private_class(f.value.id) is not None:
                 # _Helper.make(..): a class / static method of a private class the tables do not know (the receiver written as the class)
-                k_ = module.classes[f.value.id]
+                k_ = private_class(f.value.id)
                 kd, m = k_.find_method(f.attr)
                 decos = [u(d) for d in m.decorator_list] if m is not None else []
                 if decos == ["classmethod"]:
                     return m, True, prep
                 if decos == ["staticmethod"]:
                     return m, False, prep
-                return None
+                if m is None or decos:
+                    return None
+            if isinstance(f, ast.Attribute) and isinstance(f.value, ast.Name) and f.value.id not in local_types and f.value.id not in ("self", "cls") \
+                    and f.attr.startswith("_") and not f.attr.startswith("__") and f.attr not in keep and call.args \
+                    and not isinstance(call.args[0], ast.Starred) and f.value.id.lstrip("_")[:1].isupper():
+                # K._m(r, ..): the definition K sees, run for r (the receiver written as an argument); _m a private method the tables
+                # do not know
+                try:
+                    k_ = module.resolve(f.value)
+                except Exception:
+                    k_ = None
+                from .model import Class as _Class
+                if isinstance(k_, _Class):
+                    kd, m = k_.find_method(f.attr)
+                    if m is not None and not m.decorator_list and not any(f"{b_.name}.{f.attr}" in known for b_ in k_.mro):
+                        return explicit_super(m, kd), False, prep
+                    return None
             if isinstance(f, ast.Attribute) and isinstance(f.value, ast.Subscript) and isinstance(f.value.value, ast.Name) and f.value.value.id == "self" \
                     and cls is not None and f.attr.startswith("_") and not f.attr.startswith("__") and f.attr not in keep and norm.is_pure(f.value.slice, _PURE_EXT):
                 # self[k]._m(..): the element class is the one __getitem__ is annotated to return; _m a private method of it the tables
@@ -3810,10 +3857,10 @@ class Canon:
                     if m is not None and not m.decorator_list and not any(f"{b_.name}.{f.attr}" in known for b_ in ek.mro):
                         return explicit_super(m, kd), True, prep
                     return None
-            if isinstance(f, ast.Attribute) and isinstance(f.value, ast.Attribute) and isinstance(f.value.value, ast.Name) and f.value.value.id in module.classes \
-                    and f.value.value.id.startswith("_") and f"class:{f.value.value.id}" not in known and f.attr not in keep:
+            if isinstance(f, ast.Attribute) and isinstance(f.value, ast.Attribute) and isinstance(f.value.value, ast.Name) and f.attr not in keep \
+                    and private_class(f.value.value.id) is not None:
                 # _Enum.MEMBER.m(..): a method of a private enumeration the tables do not know, run for that member
-                k_ = module.classes[f.value.value.id]
+                k_ = private_class(f.value.value.id)
                 if any(u(b_).split(".")[-1] in ("Enum", "IntEnum", "StrEnum", "Flag", "IntFlag") for b_ in k_.node.bases) and f.value.attr in k_.class_assigns:
                     kd, m = k_.find_method(f.attr)
                     if m is not None and not m.decorator_list:
@@ -4856,6 +4903,7 @@ class Canon:
         b = norm.fold_none_tests(b)             # `if count is not None` on a count a helper just computed
         b = self.thread_sentinels(b, module)
         b = self.fold_enum_tests(b, module)
+        b = norm.thread_const_flags(b, self._enum_member_key)      # a verdict filed as a constant / enum member and asked again straight afterwards
         b = self.call_layout(b, module, cls)
         b = polarity(b)
         b = or_default(b)
